@@ -151,6 +151,41 @@ func SelfTest(seed int64) (checked int, failures []string) {
 		{"f2sbv", func(a, b *term) *term {
 			return mk(oAdd, sBV64, mk(oF2SBV, sBV64, mk(oFAdd, sF64, i2f(a), c(1))), tBV(64, 3))
 		}},
+		// rules added with the format / time / generated-program harnesses
+		{"add-minus-zero", func(a, b *term) *term { return mk(oFAdd, sF64, i2f(a), c(math.Copysign(0, -1))) }},
+		{"sub-plus-zero", func(a, b *term) *term { return mk(oFSub, sF64, i2f(a), c(0)) }},
+		{"minus-zero-add", func(a, b *term) *term { return mk(oFAdd, sF64, c(math.Copysign(0, -1)), i2f(a)) }},
+		{"trunc-int-plus-half", func(a, b *term) *term {
+			return mk(oF2SBV, sBV64, mk(oFAdd, sF64, u2f(tExtract(a, 15, 0)), c(0.5)))
+		}},
+		{"trunc-negint-minus-half", func(a, b *term) *term {
+			return mk(oF2SBV, sBV64, mk(oFSub, sF64, mk(oSBV2F, sF64, mk(oNeg, sBV64, tZExt(tExtract(a, 15, 0), 64))), c(0.5)))
+		}},
+		{"int-plus-half-lt", func(a, b *term) *term {
+			return tIte(mk(oFLt, sBool, mk(oFAdd, sF64, u2f(tExtract(a, 7, 0)), c(0.5)), c(300)), c(1), c(0))
+		}},
+		{"ite-const-branch-lt", func(a, b *term) *term {
+			v := tIte(tEq(tExtract(a, 7, 0), tBV(8, 0)), c(math.NaN()), i2f(b))
+			return tIte(mk(oFLt, sBool, v, c(3)), c(1), c(0))
+		}},
+		{"narrow-udiv", func(a, b *term) *term { return mk(oUDiv, sBV64, tZExt(tExtract(a, 15, 0), 64), tBV(64, 10)) }},
+		{"narrow-urem", func(a, b *term) *term { return mk(oURem, sBV64, tZExt(tExtract(a, 15, 0), 64), tBV(64, 7)) }},
+		{"narrow-mul", func(a, b *term) *term {
+			return mk(oMul, sBV64, tZExt(tExtract(a, 7, 0), 64), tZExt(tExtract(b, 7, 0), 64))
+		}},
+		{"sdiv-nonneg", func(a, b *term) *term { return mk(oSDiv, sBV64, tZExt(tExtract(a, 15, 0), 64), tBV(64, 60)) }},
+		{"srem-nonneg", func(a, b *term) *term { return mk(oSRem, sBV64, tZExt(tExtract(a, 15, 0), 64), tBV(64, 60)) }},
+		{"const-offset-div", func(a, b *term) *term {
+			x := tZExt(tExtract(a, 15, 0), 64)
+			return mk(oUDiv, sBV64, mk(oAdd, sBV64, mk(oAdd, sBV64, tBV(64, 0x38b9ba80), x), tBV(64, 0x7ffffffe1ad9c900)), tBV(64, 86400))
+		}},
+		{"const-offset-rem", func(a, b *term) *term {
+			x := tZExt(tExtract(a, 15, 0), 64)
+			return mk(oURem, sBV64, mk(oAdd, sBV64, tBV(64, 0x7ffffffe1ad9c900+86400*3+77), x), tBV(64, 3600))
+		}},
+		{"const-first-sum", func(a, b *term) *term {
+			return mk(oAdd, sBV64, tBV(64, 0x8000000000000123), mk(oAdd, sBV64, tBV(64, 0x7fffffffffffff00), tSExt(a, 64)))
+		}},
 		{"isinteger-idiom", func(a, b *term) *term {
 			v := mk(oFAdd, sF64, i2f(a), mk(oFDiv, sF64, i2f(b), c(4)))
 			return tIte(mk(oFEq, sBool, v, mk(oSBV2F, sF64, float2int(v, sBV64, true))), c(1), c(0))
